@@ -323,6 +323,7 @@ func (l *Linter) lintVCL(vcl *ast.VCL, ctx *context.Context) types.Type {
 
 	// Resolve module, snippet inclusion
 	statements := l.resolveIncludeStatements(vcl.Statements, ctx, true)
+	l.ignore = &ignore{}
 
 	// https://github.com/ysugimoto/falco/issues/50
 	// To support subroutine hoisting, add root statements to context firstly and lint each statements after that.
@@ -340,7 +341,7 @@ func (l *Linter) lintVCL(vcl *ast.VCL, ctx *context.Context) types.Type {
 	// This allows subroutines without @scope annotation to have their scope
 	// inferred from their callers
 	graph := buildCallGraph(statements)
-	l.inferSubroutineScopes(graph, ctx)
+	l.inferSubroutineScopes(statements, graph, ctx)
 
 	// Lint each statement/declaration logics
 	l.walkRootStatements(statements, func(s ast.Statement) {
@@ -443,17 +444,30 @@ func (l *Linter) resolveIncludeStatements(statements []ast.Statement, ctx *conte
 	for _, stmt := range statements {
 		include, ok := stmt.(*ast.IncludeStatement)
 		if !ok {
+			if isRoot {
+				// keep track of the ignore ranges for the include statements which follow
+				l.ignore.setupRange(stmt.GetMeta().Leading)
+			}
 			resolved = append(resolved, stmt)
 			continue
 		}
 
 		// Check snippet inclusion
 		var included []ast.Statement
-		if strings.HasPrefix(include.Module.Value, "snippet::") {
-			included = l.resolveSnippetInclusion(include, ctx, isRoot)
-		} else {
-			included = l.resolveFileInclusion(include, ctx, isRoot)
-		}
+		func() {
+			if isRoot {
+				// Root statements are expanded before linting. A module which could not be loaded is reported
+				// here, the diagnostic is located in the include statement and its ignore comments cover it
+				l.ignore.SetupStatement(include.GetMeta())
+				defer l.ignore.TeardownStatement(include.GetMeta())
+				defer l.ignore.restoreRange(l.ignore.saveRange())
+			}
+			if strings.HasPrefix(include.Module.Value, "snippet::") {
+				included = l.resolveSnippetInclusion(include, ctx, isRoot)
+			} else {
+				included = l.resolveFileInclusion(include, ctx, isRoot)
+			}
+		}()
 		// Root statements are expanded before linting, remember the include statement
 		// in order to apply its ignore comments to the included statements (see lintVCL)
 		if isRoot && len(included) > 0 {
@@ -464,6 +478,11 @@ func (l *Linter) resolveIncludeStatements(statements []ast.Statement, ctx *conte
 			first, last := included[0], included[len(included)-1]
 			l.rootIncludeFirst[first] = append(l.rootIncludeFirst[first], include)
 			l.rootIncludeLast[last] = append(l.rootIncludeLast[last], include)
+		}
+		if len(included) == 0 {
+			// Nothing was included (the module is empty or could not be loaded): the statement itself stays
+			// in the list for the sake of its ignore comments, a falco-ignore-end in front of it closes its range
+			resolved = append(resolved, include)
 		}
 		resolved = append(resolved, included...)
 	}
@@ -583,6 +602,9 @@ func (l *Linter) factoryRootDeclarations(statements []ast.Statement, ctx *contex
 			factory = append(factory, stmt)
 		case *ast.ImportStatement:
 			// @ysugimoto skipped. import statement no longer used?
+			continue
+		case *ast.IncludeStatement:
+			// an include statement which included nothing, see resolveIncludeStatements
 			continue
 		case *ast.DirectorDeclaration:
 			if err := ctx.AddDirector(t.Name.Value, &types.Director{Decl: t}); err != nil {
